@@ -111,6 +111,65 @@ def _shard(job):
     return [monitor.execute(c) for c in cfgs]
 
 
+def run_sequence(payload):
+    """(in a pristine child) build and carry out the configs in order, in ONE process."""
+    from .. import monitor
+    out = []
+    for cfg in payload["cfgs"]:
+        r = monitor.execute(cfg)
+        r.pop("trace", None)
+        out.append(dict(r))
+    return out
+
+
+def _exec_seqs(seqs):
+    from .. import forkserver
+    cl = forkserver.client()
+    return [(seq, cl.call("vlib.props.stream.run_sequence", {"cfgs": seq})) for seq in seqs]
+
+
+def sibling_sequences(tier):
+    """Ordered pairs of small configs whose parameters coincide except for the class (Revolve
+    family) or for ONE parameter that must not leak (RAM/DISK split, storage, trajectory): the
+    shape that exposes result caches keyed on too little. Each pair runs in a pristine child."""
+    N = 9 if tier == "quick" else 14
+    seqs = []
+    fam = ("Revolve", "DiskRevolve", "PeriodicDiskRevolve")
+    for n in range(2, N + 3):
+        for sx in (1, 2, 3):
+            for c8 in ([8, 8, 16, 16], [8, 16, 4, 24]):
+                cf = {c: {"cls": c, "n": n, "s": sx, "c8": c8, "passes": 1} for c in fam}
+                cf["HRevolve"] = {"cls": "HRevolve", "n": n, "s": sx, "d": 0, "c8": c8, "passes": 1}
+                for a in cf:
+                    for b in cf:
+                        if a != b:
+                            seqs.append([cf[a], cf[b]])
+    for n in range(3, N + 1):
+        for tot in (2, 3, 4):
+            for tr in ("maximum", "revolve"):
+                splits = [(r, tot - r) for r in range(0, tot + 1)]
+                for a in splits:
+                    for b in splits:
+                        if a != b and (a[0] and a[1]) and (b[0] and b[1]):
+                            seqs.append([{"cls": "Multistage", "n": n, "ram": a[0], "disk": a[1], "traj": tr, "passes": 1},
+                                         {"cls": "Multistage", "n": n, "ram": b[0], "disk": b[1], "traj": tr, "passes": 1}])
+                for a in splits:
+                    if a[0] and a[1]:
+                        seqs.append([{"cls": "Multistage", "n": n, "ram": a[0], "disk": a[1], "traj": tr, "passes": 1},
+                                     {"cls": "Multistage", "n": n, "ram": a[0], "disk": a[1], "traj": "revolve" if tr == "maximum" else "maximum", "passes": 1}])
+        for sx in (1, 2):
+            seqs.append([{"cls": "Mixed", "n": n, "s": sx, "storage": "RAM", "passes": 1}, {"cls": "Mixed", "n": n, "s": sx, "storage": "DISK", "passes": 1}])
+            seqs.append([{"cls": "Mixed", "n": n, "s": sx, "storage": "DISK", "passes": 1}, {"cls": "Mixed", "n": n, "s": sx, "storage": "RAM", "passes": 1}])
+        for p in (2, 3):
+            a = {"cls": "TwoLevel", "period": p, "b": 1, "storage": "RAM", "traj": "maximum", "n": n, "passes": 2}
+            for k, v in (("storage", "DISK"), ("traj", "revolve"), ("b", 2), ("period", p + 1)):
+                b = dict(a)
+                b[k] = v
+                seqs.append([a, b])
+                seqs.append([b, a])
+    return seqs
+
+
 def _compact(r):
     r.pop("trace", None)
     return r
@@ -122,14 +181,16 @@ def sweep(tier, seed, weights=None):
     box_results = R.pmap(_exec, boxcfgs)
     gen = R.pmap(_shard, [(tier, seed, s, count, weights) for s in range(shards)], chunksize=1)
     gen_results = [r for part in gen for r in part]
-    return boxcfgs, box_results, gen_results
+    seqs = sibling_sequences(tier)
+    seq_results = [x for part in R.pmap(_exec_seqs, R.chunks(seqs, 64), chunksize=1) for x in part]
+    return boxcfgs, box_results, gen_results, seq_results
 
 
 def run(prop, args):
     rep = R.Report(prop, args, RULES[prop])
     if args.replay:
         return replay(prop, args, rep)
-    boxcfgs, box_results, gen_results = sweep(args.tier, args.seed, C09_WEIGHTS if prop == "C09" else None)
+    boxcfgs, box_results, gen_results, seq_results = sweep(args.tier, args.seed, C09_WEIGHTS if prop == "C09" else None)
     N = 10 if args.tier == "quick" else 24
     rep.exhaustive = [{"box": "every class variant, n<=%d, all unit counts 0..n+1 (HRevolve RAM<=6, DISK<=4), all splits/trajectories/storages, period<=6, binomial_snapshots<=4, 6 cost vectors" % N,
                        "cases": len(boxcfgs) - len(list(C.large_n_probes(args.tier))) - 4, "exhaustive": True},
@@ -163,6 +224,24 @@ def run(prop, args):
                 hit.add(pred)
                 rep.add_violation((C.variant(cfg), pred), cfg, detail)
     rep.extra["distinct_configs"] = len(seen)
+    # ordered sibling pairs, each in a pristine child (history-dependent defects, reproducibly)
+    for seq, results in seq_results:
+        for i, r in enumerate(results):
+            rep.evaluations += 1
+            if r["status"] == "inconclusive":
+                rep.inconclusive += 1
+                continue
+            hit = set()
+            for (p, pred, detail) in r["viol"]:
+                if p == prop and pred not in hit:
+                    hit.add(pred)
+                    if i == 0:
+                        rep.add_violation((C.variant(r["cfg"]), pred), r["cfg"], detail)
+                    else:
+                        rep.add_violation((C.variant(r["cfg"]), pred), {"sequence": seq[:i + 1]}, detail + " [after %s in the same process]" % C.describe(seq[0]), kind="sequence")
+    rep.extra["sibling_sequences"] = len(seq_results)
+    rep.exhaustive.append({"box": "ordered sibling pairs (equal parameters, other Revolve-family class; other RAM/DISK split, storage, trajectory, period, unit count), each pair in one pristine process",
+                           "cases": len(seq_results), "exhaustive": True})
     R.run_regress(rep, lambda data: check_witness(prop, data))
     if not rep.samples:
         for r in gen_results[:5]:
@@ -255,6 +334,13 @@ def violates(prop, cfg, bucket):
 
 
 def shrink(prop, bucket, witness):
+    if "sequence" in witness:
+        last = witness["sequence"][-1]
+        solo = R.pristine_call("vlib.props.stream.run_sequence", {"cfgs": [last]})
+        for (p, pred, detail) in solo[0]["viol"]:
+            if p == prop and (C.variant(last), pred) == tuple(bucket):
+                return last, detail
+        return None
     if violates(prop, witness, bucket) is None:
         # seen in a worker that had run other schedules before, not reproducible from this config
         # alone: the violation depends on process history (C15's kind of defect). Keep the witness
@@ -266,6 +352,18 @@ def shrink(prop, bucket, witness):
 
 def check_witness(prop, data, show=False):
     cfg = data["witness"]
+    if data.get("kind") == "sequence" or (isinstance(cfg, dict) and "sequence" in cfg):
+        seq = cfg["sequence"]
+        results = R.pristine_call("vlib.props.stream.run_sequence", {"cfgs": seq})
+        if show:
+            print("replaying sequence in one fresh process: " + " ; then ".join(C.describe(c) for c in seq))
+        out = []
+        hit = set()
+        for (p, pred, detail) in results[-1]["viol"]:
+            if p == prop and pred not in hit:
+                hit.add(pred)
+                out.append(((C.variant(seq[-1]), pred), cfg, detail + " [after %s in the same process]" % C.describe(seq[0]), "sequence"))
+        return out
     from .. import monitor
     r = monitor.execute(cfg, want_trace=True)
     if show:
